@@ -115,7 +115,9 @@ def _run(module, cfg=None, env=None, workers=1, timeout=600, args=(), spec_dir=S
                  r"TLC encountered an unexpected exception|evaluating an expression of the form|"
                  r"Error: Evaluating|Attempted to|The exception was a|Error: In evaluation|Error: The first argument|"
                  r"Error: Parsing the configuration|is not defined|Error: Configuration file)", res.out):
-        raise MachineryError(f"TLC failed on {module} ({cfg}):\n" + res.out[-6000:])
+        first = res.out.find("Error:")
+        head = res.out[max(0, first - 200):first + 1500] if first >= 0 else ""
+        raise MachineryError(f"TLC failed on {module} ({cfg}):\n" + head + "\n[...]\n" + res.out[-4000:])
     return res
 
 
